@@ -298,6 +298,11 @@ def run_shard(shard, tier):
         for idx in range(lo, hi):
             for w in wrappers:
                 _c01_case(acc, terms[idx], w, idx % 4001 == 11 and w == wrappers[0])
+    elif kind == "xop":
+        terms = c01._xop_terms(n, w_fn)
+        for idx in range(lo, hi):
+            for w in wrappers:
+                _c01_case(acc, terms[idx], w, idx % 4001 == 13 and w == wrappers[0])
     elif kind == "sib":
         paths = c01._sib_ctxs(tier, w_fn)
         for idx in range(lo, hi):
